@@ -103,6 +103,25 @@ def check_shape_points(r, c):
                 continue
             if abs(L - ref) > 2e-7 * ref:
                 dis.append({"clause": "EllipsePerimeter", "detail": "%s = %r, the perimeter integral is %r (relative error %.2g)" % (form, L, ref, abs(L - ref) / ref)})
+    # eccentric arcs of many turns ("arcs of any extent"): k turns measure k perimeters (plus the rest); the chords a
+    # subdivision starts from must not all land on the same point of the ellipse
+    rx, ry = 2 * r, r
+    n = 1 << 12
+    per = sum(math.hypot(rx * math.sin(2 * math.pi * i / n), ry * math.cos(2 * math.pi * i / n)) for i in range(n)) * 2 * math.pi / n
+    P = svg.Point
+    for turns in (2.25, -5.5, 16.0, 32.0, -64.0, 100.25):
+        sweep = turns * 2 * math.pi
+        a = svg.Arc(P(c[0] + rx, c[1]), P(c[0] + rx * math.cos(sweep), c[1] + ry * math.sin(sweep)), P(*c), P(c[0] + rx, c[1]), P(c[0], c[1] + ry), sweep)
+        want = abs(turns) * per                                # (the fractional parts used are quarter turns from an axis: each is per / 4)
+        try:
+            L = a.length(error=1e-6 * r)
+        except engine.CaseTimeout:
+            raise
+        except Exception as ex:
+            dis.append({"clause": "Raises", "detail": "length of an arc of %s turns raised %s" % (turns, type(ex).__name__)})
+            continue
+        if abs(L - want) > 1e-3 * want:
+            dis.append({"clause": "ManyTurns", "detail": "Arc %g x %g over %s turns: length() = %r, %s perimeters measure %r" % (rx, ry, turns, L, abs(turns), want)})
     return dis
 
 
